@@ -211,3 +211,39 @@ Example ex_min : I_from_str_radix false 8 1 [45; 49; 50; 56] 10 = POk [128] /\
                  I_from_str_radix false 8 1 [45; 49; 50; 57] 10 = PErr NegOverflow /\
                  I_from_str_radix false 8 1 [49; 50; 56] 10 = PErr PosOverflow.
 Proof. repeat split; vm_compute; reflexivity. Qed.
+
+(* ---- the parsing code GENERATED from /repo/src on every run (tools/rs2v_parse.py -> Generated/ParseGen.v) equals the
+   hand-written model the theorems above are about (tools/PARSE_TRANSLATOR.md).  pout_of / pout_val (Proofs/ParseGenTieA.v)
+   relate the generated result type to the model's: Done (ROk a) / Done (RErr k) / Panicked / NoFuel  <->
+   POk a / PErr (code of k) / PPanic / PFuel.  Preconditions = what the call sites guarantee: a digit width >= 8,
+   the radix range asserted by every public entry point, bytes in [0, 256), a leading sign only with a non-empty buffer,
+   a digit count >= 1 for the signed wrappers; the budget bounds the iterations of every loop. ---- *)
+From Bnum.Model Require Imp ImpParse.
+From Bnum.Generated Require ParseGen.
+From Bnum.Proofs Require ParseGenTie.
+Theorem C10_parse_rs_matches_model (dbg : bool) w n : 8 <= w ->
+  (forall N fuel fs b, Bnum.Generated.ParseGen.ParseGen.byte_to_digit w N fuel fs b = Imp.Done (Parse.byte_to_digit fs b)) /\
+  (forall N fuel a, 0 < a < 2 ^ 32 -> Bnum.Generated.ParseGen.ParseGen.ilog2 w N fuel a = Imp.Done (Z.log2 a)) /\
+  (forall N fuel radix x, (S (Z.to_nat w) <= fuel)%nat -> Parse.radix_base w radix = Some x ->
+     Bnum.Generated.ParseGen.ParseGen.radix_base w N fuel radix = Imp.Done x) /\
+  (forall fs be buf radix sign fuel,
+     2 <= radix <= 256 -> bytes buf -> (sign = true -> (1 <= length buf)%nat) ->
+     (length buf + n + Z.to_nat w + 2 <= fuel)%nat ->
+     ParseGenTieA.pout_of (Bnum.Generated.ParseGen.ParseGen.from_buf_radix_internal dbg w (Z.of_nat n) fuel fs be buf radix sign)
+     = Parse.from_buf_radix_internal fs be dbg w n buf radix sign) /\
+  (forall s radix fuel, bytes s -> (length s + n + Z.to_nat w + 2 <= fuel)%nat ->
+     ParseGenTieA.pout_of (Bnum.Generated.ParseGen.ParseGen.from_str_radix dbg w (Z.of_nat n) fuel s radix) = U_from_str_radix dbg w n s radix /\
+     ParseGenTieA.pout_val (Bnum.Generated.ParseGen.ParseGen.parse_bytes dbg w (Z.of_nat n) fuel s radix) = U_parse_bytes dbg w n s radix /\
+     ParseGenTieA.pout_val (Bnum.Generated.ParseGen.ParseGen.parse_str_radix dbg w (Z.of_nat n) fuel s radix) = U_parse_str_radix dbg w n s radix /\
+     ParseGenTieA.pout_of (Bnum.Generated.ParseGen.ParseGen.from_str dbg w (Z.of_nat n) fuel s) = U_from_str dbg w n s /\
+     ParseGenTieA.pout_val (Bnum.Generated.ParseGen.ParseGen.from_radix_be dbg w (Z.of_nat n) fuel s radix) = U_from_radix_be dbg w n s radix /\
+     ParseGenTieA.pout_val (Bnum.Generated.ParseGen.ParseGen.from_radix_le dbg w (Z.of_nat n) fuel s radix) = U_from_radix_le dbg w n s radix /\
+     ParseGenTieA.pout_val (Bnum.Generated.ParseGen.ParseGen.I_from_radix_be dbg w (Z.of_nat n) fuel s radix) = I_from_radix_be dbg w n s radix /\
+     ParseGenTieA.pout_val (Bnum.Generated.ParseGen.ParseGen.I_from_radix_le dbg w (Z.of_nat n) fuel s radix) = I_from_radix_le dbg w n s radix) /\
+  (forall s radix fuel, (0 < n)%nat -> bytes s -> (length s + n + Z.to_nat w + 2 <= fuel)%nat ->
+     ParseGenTieA.pout_of (Bnum.Generated.ParseGen.ParseGen.I_from_str_radix dbg w (Z.of_nat n) fuel s radix) = I_from_str_radix dbg w n s radix /\
+     ParseGenTieA.pout_val (Bnum.Generated.ParseGen.ParseGen.I_parse_bytes dbg w (Z.of_nat n) fuel s radix) = I_parse_bytes dbg w n s radix /\
+     ParseGenTieA.pout_val (Bnum.Generated.ParseGen.ParseGen.I_parse_str_radix dbg w (Z.of_nat n) fuel s radix) = I_parse_str_radix dbg w n s radix /\
+     ParseGenTieA.pout_of (Bnum.Generated.ParseGen.ParseGen.I_from_str dbg w (Z.of_nat n) fuel s) = I_from_str dbg w n s).
+Proof. exact (ParseGenTie.parse_C10_match_model dbg w n). Qed.
+Print Assumptions C10_parse_rs_matches_model.
